@@ -131,10 +131,18 @@ theorem runScenario_puts (m : MSt) (sc : Scenario) :
     generalize hm1 : ({ m with current := some m.nextId, nextId := m.nextId + 1, out := m.out ++ [SEv.scenStarted m.nextId] } : MSt) = m1
     have h := runSteps_frame m1 sc.steps
     simp only [frame, Frame.mk.injEq] at h
-    refine ⟨((runSteps m1 sc.steps).1.stepStatus.getD .skip), ?_, ?_⟩
-    · simp only [Puts, teardown, h.1, h.2.2.1]
-      subst hm1; simp
-    · simp only [teardown, h.2.1]; subst hm1; rfl
+    refine ⟨((runSteps m1 sc.steps).1.stepStatus.getD .skip), ?_⟩
+    cases sc.teardownFails with
+    | false =>
+      simp only [Bool.false_eq_true, if_false]
+      refine ⟨?_, ?_⟩
+      · simp only [Puts, teardown, h.1, h.2.2.1]; subst hm1; simp
+      · simp only [teardown, h.2.1]; subst hm1; rfl
+    | true =>
+      simp only [if_true]
+      refine ⟨?_, ?_⟩
+      · simp only [Puts, teardownFailing, h.1, h.2.2.1]; subst hm1; simp
+      · simp only [teardownFailing, h.2.1]; subst hm1; rfl
 
 theorem runScenario_wf (m : MSt) (sc : Scenario) (k : Nat) :
     ∃ evs, Puts m (runScenario m sc).1 evs ∧ wfRun (some k, none) evs = some (some k, none) ∧
@@ -306,7 +314,9 @@ theorem runScenario_stopped (m : MSt) (sc : Scenario) (h : m.ctl.hasToStop = tru
       subst heq
       have := runSteps_stopped { m with current := some m.nextId, nextId := m.nextId + 1, out := m.out ++ [SEv.scenStarted m.nextId] }
         sc.steps h
-      exact ⟨by simpa [teardown] using this.1, by simpa [teardown] using this.2⟩
+      split
+      · exact ⟨by simpa [teardownFailing] using this.1, by simpa [teardownFailing] using this.2⟩
+      · exact ⟨by simpa [teardown] using this.1, by simpa [teardown] using this.2⟩
 
 theorem runMachine_stopped (m : MSt) (scens : List Scenario) (h : m.ctl.hasToStop = true) :
     (runMachine m scens).1.calls = m.calls ∧ (runMachine m scens).1.ctl.hasToStop = true := by
@@ -571,12 +581,12 @@ theorem runSteps_end_status (m : MSt) (steps : List Step) :
 
 /-- A scenario whose run is ended by a check failure is closed as FAILURE, one ended by an error as ERROR: the closing
     event is the last thing the scenario puts. -/
-theorem runScenario_closing_status (m : MSt) (sc : Scenario) (hs : sc.setupFails = false) :
+theorem runScenario_closing_status (m : MSt) (sc : Scenario) (hs : sc.setupFails = false) (ht : sc.teardownFails = false) :
     (∀ fs, (runScenario m sc).2 = .failureGroup fs →
         (runScenario m sc).1.out = m.out ++ [.scenStarted m.nextId, .scenFinished m.nextId .failure]) ∧
     ((runScenario m sc).2 = .exception →
         (runScenario m sc).1.out = m.out ++ [.scenStarted m.nextId, .scenFinished m.nextId .error]) := by
-  simp only [runScenario, setup, hs, Bool.false_eq_true, if_false]
+  simp only [runScenario, setup, hs, ht, Bool.false_eq_true, if_false]
   generalize hm1 : ({ m with current := some m.nextId, nextId := m.nextId + 1, out := m.out ++ [SEv.scenStarted m.nextId] } : MSt) = m1
   have h := runSteps_frame m1 sc.steps
   simp only [frame, Frame.mk.injEq] at h
@@ -708,7 +718,9 @@ theorem runScenario_inv (U : List FKey) (m : MSt) (sc : Scenario) (hk : ∀ f, f
     · simp at heq
     · simp only [Prod.mk.injEq, and_true] at heq
       subst heq
-      exact inv_of_seen (by rfl) (runSteps_inv U _ sc.steps hk (inv_of_seen (by rfl) h))
+      split
+      · exact inv_of_seen (by rfl) (runSteps_inv U _ sc.steps hk (inv_of_seen (by rfl) h))
+      · exact inv_of_seen (by rfl) (runSteps_inv U _ sc.steps hk (inv_of_seen (by rfl) h))
 
 theorem runMachine_inv (U : List FKey) (m : MSt) (scens : List Scenario) (hk : ∀ f, f ∈ scens.flatMap scenKeys → f ∈ U)
     (h : Inv U m) : Inv U (runMachine m scens).1 := by
@@ -738,8 +750,11 @@ theorem runScenario_run (m : MSt) (sc : Scenario) :
       subst heq
       have h := runSteps_frame { m with current := some m.nextId, nextId := m.nextId + 1, out := m.out ++ [SEv.scenStarted m.nextId] } sc.steps
       simp only [frame, Frame.mk.injEq] at h
-      simp only [teardown]
-      exact ⟨h.2.2.2.1, by rw [h.2.2.2.2.1]; exact Nat.le_succ _, h.2.2.2.2.2.2⟩
+      split
+      · simp only [teardownFailing]
+        exact ⟨h.2.2.2.1, by rw [h.2.2.2.2.1]; exact Nat.le_refl _, h.2.2.2.2.2.2⟩
+      · simp only [teardown]
+        exact ⟨h.2.2.2.1, by rw [h.2.2.2.2.1]; exact Nat.le_succ _, h.2.2.2.2.2.2⟩
 
 theorem runMachine_run (m : MSt) (scens : List Scenario) :
     (runMachine m scens).1.seenRun = m.seenRun ∧ m.completed ≤ (runMachine m scens).1.completed ∧
